@@ -28,7 +28,8 @@ type Mem struct {
 	BudgetHit bool
 	// faults
 	FailAt     int  // k-th read of the operation fails (1-based); 0 = none
-	FailKind   int  // 0 = error, 1 = short read (partial buffer + EOF)
+	FailKind   int  // 0 = error, 1 = short read (partial buffer + EOF), 2 = the page arrives with an invalid b-tree page type (only for pages in BtreePages)
+	BtreePages map[int]bool
 	FailSticky bool // all reads from the k-th on fail
 	Fired      bool
 	LockFail   bool
@@ -92,6 +93,15 @@ func (m *Mem) Page(n int, pagesize int) ([]byte, error) {
 	c := copy(buf, m.Image[off:])
 	m.Bytes += int64(c)
 	if m.FailAt > 0 && (m.Reads == m.FailAt || (m.FailSticky && m.Reads > m.FailAt)) {
+		if m.FailKind == 2 {
+			// detectable corruption: a b-tree page (not page 1, whose first read is
+			// for the header only) whose type byte is none of 2, 5, 10, 13
+			if n > 1 && m.BtreePages[n] && c == pagesize {
+				m.Fired = true
+				buf[0] = 0xee
+			}
+			return buf, nil
+		}
 		m.Fired = true
 		if m.FailKind == 0 {
 			return nil, ErrInjected
